@@ -46,6 +46,46 @@ FoldRefinesRequirement(ms) ==
   IF Conflict(ms) THEN FoldAll(ms)[1] = "conflict"          \* documented misuse is *rejected* (C15), never a panic (C16)
   ELSE FoldAll(ms) = <<"ok", Unrolled(ms)>>
 
+
+\* =====================================================================================================
+\* Enum variant payload fields: the field-level repeat context is shared by all variants of the enum (ast.rs: one Context for
+\* Variant::multiple_from_syn); a template ends with its variant unless it was written `repeat(permeate(), ..)`.
+\*   f == [v |-> variant number, own, rep, cats, perm |-> BOOLEAN, stop, skip]      (fields of all variants in declaration order)
+\* =====================================================================================================
+\* the latest earlier field carrying `repeat` with no stop_repeat after it up to and including j: the context holds ONE template,
+\* a later repeat replaces an earlier one; it is in force for j only within its own variant, or everywhere once it permeates
+VLatest(fs, j) ==
+  LET C == {i \in 1..(j-1) : fs[i].rep} IN
+  IF C = {} THEN 0 ELSE CHOOSE i \in C : \A i2 \in C : i2 <= i
+VTemplate(fs, j) ==
+  LET i == VLatest(fs, j) IN
+  IF i = 0 THEN 0
+  ELSE IF \E k \in (i+1)..j : fs[k].stop THEN 0
+  ELSE IF fs[i].v = fs[j].v \/ fs[i].perm THEN i ELSE 0
+VEff(fs, j) ==
+  LET t == VTemplate(fs, j) IN
+  IF fs[j].rep \/ fs[j].skip \/ t = 0 THEN OwnInstrs(fs, j)
+  ELSE OwnInstrs(fs, j) \cup {<<c, t>> : c \in (fs[t].own \cap RepCats(fs[t]))}
+VConflict(fs) == \E j \in DOMAIN fs : fs[j].rep /\ ~fs[j].stop /\ VTemplate(fs, j) # 0
+VUnrolled(fs) == [j \in DOMAIN fs |-> VEff(fs, j)]
+\* the fold as implemented: ctx = 0 or the index of the template field; at a variant boundary a non-permeating template is dropped
+RECURSIVE VFold(_, _, _, _)
+VFold(fs, j, ctx, acc) ==
+  IF j > Len(fs) THEN <<"ok", acc>>
+  ELSE LET c0 == IF j > 1 /\ fs[j].v # fs[j-1].v /\ ctx # 0 /\ ~fs[ctx].perm THEN 0 ELSE ctx      \* end of the previous variant
+           c1 == IF fs[j].stop THEN 0 ELSE c0 IN
+       IF fs[j].rep
+       THEN IF c1 # 0 /\ ~fs[j].stop THEN <<"conflict", j>>
+            ELSE VFold(fs, j + 1, j, Append(acc, OwnInstrs(fs, j)))
+       ELSE IF c1 # 0
+            THEN VFold(fs, j + 1, c1, Append(acc, IF fs[j].skip THEN OwnInstrs(fs, j)
+                                                  ELSE OwnInstrs(fs, j) \cup {<<c, c1>> : c \in (fs[c1].own \cap RepCats(fs[c1]))}))
+            ELSE VFold(fs, j + 1, 0, Append(acc, OwnInstrs(fs, j)))
+VFoldAll(fs) == VFold(fs, 1, 0, <<>>)
+VFoldRefinesRequirement(fs) ==
+  IF VConflict(fs) THEN VFoldAll(fs)[1] = "conflict"
+  ELSE VFoldAll(fs) = <<"ok", VUnrolled(fs)>>
+
 \* =====================================================================================================
 \* Trait level.   t == [n |-> name, own |-> SUBSET TCats, rep |-> BOOLEAN, cats |-> SUBSET TCats, stop, skip]
 \* =====================================================================================================
